@@ -30,7 +30,7 @@ ASSUMPTIONS = [
     "a frame whose reference reading contains an undefined or not-available code may be rejected (connection reset) or delivered with the defined fields right",
     "after a malformed point the rest of that connection's bytes carry no obligation (the client resets the connection)",
 ]
-PROBES = ["c17.partial_record", "c17.long_unknown_frame", "c17.longer_stride_repeated", "c17.declared_count_mismatch", "c17.unknown_type", "c17.unknown_ext_sub", "c17.unknown_cs_sub", "c17.longer_stride", "c17.mutated_len", "c17.mutated_type",
+PROBES = ["c17.names_do_not_add_up", "c17.partial_record", "c17.long_unknown_frame", "c17.longer_stride_repeated", "c17.declared_count_mismatch", "c17.unknown_type", "c17.unknown_ext_sub", "c17.unknown_cs_sub", "c17.longer_stride", "c17.mutated_len", "c17.mutated_type",
           "c17.mutated_payload", "c17.truncated", "c17.random", "c17.rejected_then_recovered"]
 
 
@@ -102,7 +102,29 @@ def generate(rng, index: int, tier: str) -> dict:
         victim = rng.randrange(len(frames))
         fr = bytearray(frames[victim])
         hl = 8 if gen == 4 else 20
-        where = rng.choice(["len", "type", "payload", "payload", "subhdr", "addr"] + (["count", "count"] if gen == 5 else ["partial", "partial"]))
+        where = rng.choice(["len", "type", "payload", "payload", "subhdr", "addr", "names"] + (["count", "count"] if gen == 5 else ["partial", "partial"]))
+        if where == "names":
+            # a names answer whose records do not add up: the last name announces more bytes than the frame holds, the
+            # frame ends inside the last name or right behind a zone number (AT4: not a whole number of 9-byte records);
+            # header lengths and check bytes consistent
+            wn = common.wire(gen)
+            n = rng.choice([1, 2, 3, 5])
+            body = bytearray(wn.enc_names({i: G.name(rng, 8 if gen == 4 else 16) or "Zone" for i in range(n)}))
+            how = rng.choice(["cut", "cut1", "longer"]) if gen == 5 else rng.choice(["cut", "cut1"])
+            if how == "cut" and len(body) > 3:
+                body = body[: len(body) - rng.randint(1, min(5, len(body) - 2))]
+            elif how == "cut1":
+                body = body + bytes((n,))  # a dangling zone number
+            else:
+                # find the last record's length byte and enlarge it
+                pos = 0
+                last = 0
+                while pos + 2 <= len(body):
+                    last = pos + 1
+                    pos += 2 + body[pos + 1]
+                body[last] = min(255, body[last] + rng.choice([1, 2, 17, 200]))
+            fr = bytearray(wn.f_ext(rng.randrange(256), wn.X_NAMES, bytes(body)))
+            frames[victim] = bytes(fr)
         if where == "partial":
             # an AT4 status frame (fixed record size, no count field) whose payload is not a whole number of records - a record
             # cut short or a few stray bytes behind the last one - with length field and check bytes consistent
@@ -217,6 +239,8 @@ def execute(sc: dict) -> dict:
         probes["c17." + cls] = 1
     if info.get("where") == "partial":
         probes["c17.partial_record"] = 1
+    if info.get("where") == "names":
+        probes["c17.names_do_not_add_up"] = 1
     # 1. nothing beyond what the reference receiver finds
     if len(got) > len(refs):
         V.append(viol("C17.delivered_from_malformed", {"reference_frames": len(refs), "delivered": len(got), "verdict": verdict,
@@ -232,6 +256,11 @@ def execute(sc: dict) -> dict:
                 V.append(viol("C17.misread", {"frame": frames[i]["raw"].hex(), "declared_records": r["rcount"], "delivered_records": len(recs),
                                               "delivered_kind": m["reading"]["kind"]}, kind=m["reading"]["kind"], at="record_count"))
                 break
+        if r["kind"] == "undef" and r.get("structural") == "names" and m["reading"].get("kind") == "names":
+            # the records of this names answer do not add up to the frame: a names message made from it (last name clipped,
+            # or the dangling bytes dropped) is not what these bytes say
+            V.append(viol("C17.misread", {"frame": frames[i]["raw"].hex(), "why": r.get("why"), "delivered": repr(m["reading"])[:200]}, kind="names", at="structure"))
+            break
         if r["kind"] == "undef" and r.get("partial_record"):
             # the payload is not a whole number of records: a status / control message made from the whole records in front
             # (the rest silently dropped) is not what these bytes say
